@@ -63,6 +63,14 @@ CHECKS.update({
             "DESIGN.md §2 C18"),
 })
 
+CHECKS.update({
+    "C15": ("exploration",
+            "runtime contracts (icontract on the real serialize/deserialize methods) + round-trip oracle with recursive exact-type comparison + recomputation oracle for the compression algebra",
+            "Values from a recursive seeded generator (exact-type traps: bool, int/str/bytes/list/dict subclasses, dataclass and __slots__ objects; ints up to 4000 digits; sizes straddling every threshold; incompressible and compressible data) go through PickleSerde (protocols 0..5), CompressedSerde (min_compress_len 0/1/10/400 x zlib/bz2/lzma/identity) and LegacyWrappingSerde: the serialized form must be bytes or ASCII text with 16-bit flags (contract), the round trip must return an equal value of exactly the same type, COMPRESSED must be set exactly when the stored form is compress(inner form), never larger than the inner form, never at or below the threshold.",
+            "Trusts pickle and the codecs themselves; the generator's classes live in an importable harness module.",
+            "DESIGN.md §2 C15"),
+})
+
 NOT_YET = "check not built yet in this round (runtime-monitoring design in DESIGN.md §2); will be claimed once its monitor exists"
 
 manifest = {
